@@ -270,7 +270,7 @@ func testValues(attr, ty string) (string, string) {
 	case attr == "font-family":
 		return "Georgia, serif", "Courier New, monospace"
 	case ty == "color":
-		return "#123456", "#654321"
+		return "#1a2", "#654321" // a three-digit colour is normalised on the way: every source must do it alike
 	case strings.HasPrefix(ty, "enum("):
 		opts := strings.Split(strings.TrimSuffix(strings.TrimPrefix(ty, "enum("), ")"), ",")
 		var nz []string
